@@ -5,12 +5,15 @@ import (
 	"fmt"
 	"os"
 	"strings"
+	"sync"
 	"sync/atomic"
 	"syscall"
 	"time"
 
 	"github.com/criyle/go-sandbox/container"
 	"github.com/criyle/go-sandbox/pkg/forkexec"
+	"github.com/criyle/go-sandbox/pkg/seccomp"
+	"github.com/criyle/go-sandbox/pkg/seccomp/libseccomp"
 	"github.com/criyle/go-sandbox/ptracer"
 	"github.com/criyle/go-sandbox/runner"
 	"github.com/criyle/go-sandbox/runner/unshare"
@@ -49,7 +52,7 @@ func init() {
 		spec := &mc.Spec{
 			Level: "model_checking",
 			Rule: "pinned-schedule enumeration on the implementation (shares the C10 model's gates): container — cancel before the call, inside the callback, with the host held at each named point of Execve (send/recv of execve, pid, ok; before the select), with the result held in flight, with the child ended but unreported, × program {never ends, exits 7} × sync {before, after} exec; " +
-				"tracer — cancel before Trace, with the child held before setsid, inside the callback, at every tracer step (each Debug call index); namespace runner — before Run, inside the callback, while the program runs; Destroy — while Execve / Open / Ping is in flight with a pump or the caller held at each host point, or with the container's reply withheld. " +
+				"tracer — cancel before Trace, with the child held before setsid, inside the callback, at every tracer step (each Debug call of the tracer loop and each handler call for the program's traced pause / exit_group, the handler returning at once or only after the kill has landed, answering allow or soft-ban); namespace runner — before Run, inside the callback, while the program runs; Destroy — while Execve / Open / Ping is in flight with a pump or the caller held at each host point, or with the container's reply withheld. " +
 				"Oracle: the call returns within the horizon with Time Limit Exceeded or the program's genuine verdict, never Runner Error / Disallowed Syscall; nothing of the run stays alive; after Destroy the in-flight call has returned and the init is gone. distinct = (runner, instant, program, observation)",
 			Bound:       map[string]any{"not_pinned": "instants strictly between two consecutive gates; the namespace runner's window between program exit and Run returning"},
 			Assumptions: []string{"gate granularity; the horizon (10 s) is three orders of magnitude above normal latency"},
@@ -166,17 +169,57 @@ func c11container(x *mc.X) {
 }
 
 // tracer handler that cancels at the k-th Debug call
+// c11canceller cancels the run at its k-th tracer step. A step is a Debug call of the tracer loop or a Handle call
+// (a traced system call of the program: the tracee sits in its seccomp stop while the handler runs). With landed set,
+// the handler does not return before the cancellation's kill has reached the main process, so that everything the
+// tracer does next meets a tracee that is gone.
 type c11canceller struct {
 	k      int
 	n      int32
 	cancel func()
+	landed bool
+	ban    bool
+	main   int32
 }
 
-func (h *c11canceller) Handle(*ptracer.Context) ptracer.TraceAction { return ptracer.TraceAllow }
-func (h *c11canceller) Debug(v ...interface{}) {
+func (h *c11canceller) step() {
 	if int(atomic.AddInt32(&h.n, 1))-1 == h.k {
 		h.cancel()
+		if h.landed {
+			pid := int(atomic.LoadInt32(&h.main))
+			waitUntil(2*time.Second, func() bool { return pid == 0 || !pidAlive(pid) })
+		}
 	}
+}
+
+func (h *c11canceller) Handle(c *ptracer.Context) ptracer.TraceAction {
+	h.step()
+	if h.ban {
+		c.SetReturnValue(-int(syscall.EACCES))
+		return ptracer.TraceBan
+	}
+	return ptracer.TraceAllow
+}
+
+func (h *c11canceller) Debug(v ...interface{}) {
+	if len(v) >= 2 {
+		if s, ok := v[0].(string); ok && strings.HasPrefix(s, "tracer started") {
+			if p, ok := v[1].(int); ok {
+				atomic.StoreInt32(&h.main, int32(p))
+			}
+		}
+	}
+	h.step()
+}
+
+var (
+	c11filterOnce sync.Once
+	c11filter     seccomp.Filter
+)
+
+func c11Filter() seccomp.Filter {
+	c11filterOnce.Do(func() { c11filter = mustFilter(nil, []string{"pause", "exit_group"}, libseccomp.ActionAllow) })
+	return c11filter
 }
 
 func c11tracer(x *mc.X) {
@@ -191,9 +234,20 @@ func c11tracer(x *mc.X) {
 	if kind == "before-trace" || kind == "child-held-before-setsid" {
 		withSync = x.Bool("with-callback")
 	}
+	landed, ban := false, false
+	if kind == "at-tracer-step" {
+		landed = x.Bool("handler-returns-only-after-the-kill-landed")
+		ban = x.Bool("handler-soft-bans-traced-calls")
+	}
 	instant := kind
 	if k >= 0 {
 		instant = fmt.Sprintf("%s-%d", kind, k)
+	}
+	if landed {
+		instant += "+kill-landed"
+	}
+	if ban {
+		instant += "+ban"
 	}
 	x.Note("instant", instant)
 	if x.Dry() {
@@ -206,7 +260,8 @@ func c11tracer(x *mc.X) {
 	}
 	ctx, cancel := context.WithCancel(context.Background())
 	defer cancel()
-	ch := &forkexec.Runner{Args: argv, Env: []string{}, Files: stdioNull(), Seccomp: allowAll().SockFprog(), Ptrace: true, UnshareCgroupAfterSync: true}
+	// the program's own pause / exit_group calls are traced, so that some steps are handler calls with the tracee in a seccomp stop
+	ch := &forkexec.Runner{Args: argv, Env: []string{}, Files: stdioNull(), Seccomp: c11Filter().SockFprog(), Ptrace: true, UnshareCgroupAfterSync: true}
 	if withSync {
 		ch.SyncFunc = func(int) error {
 			if kind == "inside-callback" {
@@ -215,7 +270,7 @@ func c11tracer(x *mc.X) {
 			return nil
 		}
 	}
-	h := &c11canceller{k: k, cancel: cancel}
+	h := &c11canceller{k: k, cancel: cancel, landed: landed, ban: ban}
 	t := ptracer.Tracer{Handler: h, Runner: ch, Limit: bigLimit}
 	var gateW *os.File
 	switch kind {
@@ -250,6 +305,12 @@ func c11tracer(x *mc.X) {
 	}
 	x.Note("result", fmt.Sprintf("%s exit=%d %q returned=%v", statusName(res.Status), res.ExitStatus, res.Error, returned))
 	cls := kind
+	if landed {
+		cls += "+kill-landed"
+	}
+	if ban {
+		cls += "+ban"
+	}
 	c11judge(x, "tracer", cls, prog, res, returned, nonce)
 	x.Distinct(fmt.Sprint("tracer", instant, prog, withSync, res.Status))
 	x.Outcome("tracer:" + statusName(res.Status))
